@@ -228,7 +228,7 @@ ADDENDA4 = {
     "C18": "Emitted text is also compared token-wise with the plain payload's (a literal closed early shows as extra tokens even when the remainder does not parse).",
 }
 for _k, _v in ADDENDA4.items():
-    ADDENDA[_k] += " " + _v
+    ADDENDA[_k] = (ADDENDA.get(_k, "") + " " + _v).strip()
 for _k, _v in ADDENDA.items():
     CHECKS[_k]["text"] += " " + _v
 
